@@ -53,6 +53,116 @@ let do_post ws =
         (string_of_bool st'.finished) (string_of_dump !post_cfg st')
   | _ -> failwith "POST"
 
+(* ---- C03: RNEW / RSTART / RMSG ---------------------------------------------------------------- *)
+
+let role_of_string = function
+  | "att" -> RAtt | "prop" -> RProp | "agg" -> RAgg | "sc" -> RSync | "scc" -> RSyncAgg
+  | "vreg" -> RVReg | "vexit" -> RVExit | s -> failwith ("role " ^ s)
+
+let string_of_role = function
+  | RAtt -> "att" | RProp -> "prop" | RAgg -> "agg" | RSync -> "sc" | RSyncAgg -> "scc"
+  | RVReg -> "vreg" | RVExit -> "vexit"
+
+let string_of_domain = function
+  | DRandao -> "randao" | DSelProof -> "selproof" | DScSelProof -> "scselproof" | DAttester -> "attester"
+  | DProposer -> "proposer" | DAggProof -> "aggproof" | DSyncCom -> "synccom" | DContrib -> "contrib"
+  | DAppBuilder -> "appbuilder" | DVolExit -> "volexit" | DNone -> "none"
+
+let string_of_class = function
+  | COk -> "ok" | CPassed -> "passed" | CNoStart -> "nostart" | CForeign -> "foreign" | CNoCons -> "nocons"
+  | CCtrl -> "ctrl" | CWrongInst -> "wronginst" | CDecode -> "decode" | CInvalid -> "invalid"
+  | CNoPhase -> "nophase" | CNoDecided -> "nodecided" | CNoInst -> "noinst" | CNotDecided -> "notdecided"
+  | CPart e -> string_of_err e
+
+let rec split_at_semi acc = function
+  | [] -> (List.rev acc, [])
+  | ";" :: rest -> (List.rev acc, rest)
+  | x :: rest -> split_at_semi (x :: acc) rest
+
+(* "<k> id1 .. idk rest" *)
+let take_ids ws =
+  match ws with
+  | k :: rest ->
+      let k = int_of_string k in
+      let rec go k ws acc = if k = 0 then (List.rev acc, ws) else
+          match ws with x :: tl -> go (k - 1) tl (n_of_string x :: acc) | [] -> failwith "ids" in
+      go k rest []
+  | [] -> failwith "ids"
+
+let vcfg = ref { v_committee = []; v_quorum = O }
+let vst = ref vinit
+let cur_role = ref RAtt
+
+let join = function [] -> "-" | l -> String.concat "," l
+
+let print_vobs cls outs =
+  let signs = List.filter_map (function
+      | Sign (_, d, x) -> Some (string_of_domain d ^ ":" ^ string_of_n x) | _ -> None) outs in
+  let bcasts = List.filter_map (function
+      | Bcast (r, post, slot, objs) ->
+          Some (Printf.sprintf "%s/%s/%s/%s" (string_of_role r) (if post then "post" else "pre")
+                  (string_of_n slot) (String.concat "." (List.map string_of_n objs)))
+      | _ -> None) outs in
+  let state = match !vst !cur_role with
+    | None -> "idle"
+    | Some ds ->
+        Printf.sprintf "%s/%s/%s/%s" (string_of_n ds.ds_duty.du_slot)
+          (match ds.ds_running with Some h -> string_of_n h | None -> "-")
+          (match ds.ds_decided with Some dv -> string_of_n dv.dv_id | None -> "-")
+          (string_of_bool ds.ds_finished) in
+  Printf.printf "OBS r %s sign=%s bcast=%s state=%s\n" (string_of_class cls) (join signs) (join bcasts) state
+
+let do_vstep i =
+  let ((v', cls), outs) = vstep !vcfg !vst i in
+  vst := v';
+  print_vobs cls outs
+
+let do_rstart ws =
+  let (args, oracle) = split_at_semi [] ws in
+  match args, oracle with
+  | role :: slot :: rest, [ ctrlh; instok ] ->
+      let (pre, _) = take_ids rest in
+      cur_role := role_of_string role;
+      do_vstep (IStart (!cur_role, { du_slot = n_of_string slot; du_pre = pre }, n_of_string ctrlh,
+                        bool_of_string instok))
+  | _ -> failwith "RSTART"
+
+let parse_smsg ws =
+  match ws with
+  | signer :: slot :: _bnok :: k :: rest ->
+      { s_signer = n_of_string signer; s_slot = n_of_string slot; s_msgs = parse_inner (int_of_string k) rest }
+  | _ -> failwith "smsg"
+
+let do_rmsg ws =
+  let (args, oracle) = split_at_semi [] ws in
+  let rest = match args with
+    | "T" :: _ :: _ :: _ :: rest -> rest
+    | "D" :: _ :: _ :: _ :: _ :: rest -> rest
+    | _ -> failwith "RMSG ref" in
+  match rest with
+  | asrole :: pk :: kind :: margs ->
+      cur_role := role_of_string asrole;
+      let body =
+        match kind with
+        | "C" ->
+            (match oracle with
+             | cerr :: prev :: "0" :: _ ->
+                 BCons { co_err = bool_of_string cerr; co_prev = bool_of_string prev; co_ret = None }
+             | cerr :: prev :: "1" :: h :: vid :: dec :: valid :: dcslot :: objs ->
+                 let (ids, _) = take_ids objs in
+                 BCons { co_err = bool_of_string cerr; co_prev = bool_of_string prev;
+                         co_ret = Some { dc_height = n_of_string h; dc_value = n_of_string vid;
+                                         dc_decodes = bool_of_string dec; dc_valid = bool_of_string valid;
+                                         dc_objs = ids; dc_slot = n_of_string dcslot } }
+             | _ -> failwith "cons oracle")
+        | "P" -> (match oracle with
+            | [ _; instok ] -> BPre (parse_smsg margs, bool_of_string instok) | _ -> failwith "pre oracle")
+        | "O" -> (match oracle with
+            | [ instdec; _ ] -> BPost (parse_smsg margs, bool_of_string instdec) | _ -> failwith "post oracle")
+        | _ -> failwith "RMSG kind" in
+      do_vstep (IMsg (bool_of_string pk, !cur_role, body))
+  | _ -> failwith "RMSG"
+
 let () =
   iter_lines (function
     | "CASE" :: _ as w -> print_endline (String.concat " " w)
@@ -62,4 +172,10 @@ let () =
                       duty_slot = n_of_string slot; expected = nat_list_of (int_of_string nroots) };
         post_st := init_state
     | "POST" :: rest -> do_post rest
+    | [ "RNEW"; n ] ->
+        let n = int_of_string n in
+        vcfg := { v_committee = List.init n (fun i -> n_of_int (i + 1)); v_quorum = nat_of_int (n - (n - 1) / 3) };
+        vst := vinit
+    | "RSTART" :: rest -> do_rstart rest
+    | "RMSG" :: rest -> do_rmsg rest
     | _ -> ())
